@@ -31,9 +31,8 @@ Definition sea_check (s : schema) (t : table_def) (o : sea_obs) : bool :=
   | _, _ => false
   end.
 
-(* every line is compared as text, order of the imported names included; only the datetime line (the one place
-   HashSites marks iterated-unsorted) is compared as a set.  All observed variants must agree with the model,
-   and at least one must have been observed. *)
+(* every line — the datetime line too — is compared as text, order of the imported names included.  All observed
+   variants must agree with the model, and at least one must have been observed. *)
 Definition imports_check (model : list string) (impl : list (list string)) : bool :=
   (negb (Nat.eqb (List.length impl) 0) && forallb (list_eqb import_line_eqb model) impl)%bool.
 
@@ -65,7 +64,7 @@ Fixpoint mismatches_from (i : nat) (cs : list exp_case) : list (nat * list nat) 
   end.
 
 (* classifiers and theorem hypotheses, per table of the case, in this order:
-   0 known_C17_clash   1 known_C16_fk_cycle   2 known_C18_datetime   3 known_C18_slice_order
+   0 known_C17_clash   1 known_C16_fk_cycle   2 known_C18_datetime (former class, fixed)   3 known_C18_slice_order
    4 fk_closed (hypothesis of refs_exist)   5 known_C17_py_ident   6 known_C17_py_dup
    7 known_C17_py_empty_import   8 known_C17_py_text   9 known_C17_py_sqlmodel_text *)
 Definition classify_table (s : schema) (t : table_def) : list bool :=
